@@ -17,6 +17,16 @@ for d in sorted(glob.glob(os.path.join(os.path.dirname(os.path.dirname(os.path.a
         if c.startswith(f"[{m['property']} ") and g:
             guards = (g.group(1) or "") + (g.group(2) if g.group(2) and g.group(2) != "None" else "")
     rows.append((m["dir"], "confirmed" if m.get("confirmed") else "NOT confirmed", first, own + (" " + guards if guards else ""), ",".join(m.get("other_checks_alarmed", []))))
-print("| id | status | change | caught by its own check | other checks alarmed |\n|---|---|---|---|---|")
-for r in rows:
-    print("| " + " | ".join(r) + " |")
+import sys
+table = "| id | status | change | caught by its own check | other checks alarmed |\n|---|---|---|---|---|\n" + "\n".join("| " + " | ".join(r) + " |" for r in rows)
+n_conf = sum(1 for r in rows if r[1] == "confirmed")
+n_own = sum(1 for r in rows if r[1] == "confirmed" and r[3].startswith("yes"))
+summary = f"\n\n{n_conf} confirmed changes, {n_own} caught by the check of their own property."
+if "--update-design" in sys.argv:
+    dp = os.path.join(os.path.dirname(os.path.dirname(os.path.abspath(__file__))), "DESIGN.md")
+    s = open(dp).read()
+    a = s.index("<!-- SEEDTABLE:BEGIN -->") + len("<!-- SEEDTABLE:BEGIN -->")
+    b = s.index("<!-- SEEDTABLE:END -->")
+    open(dp, "w").write(s[:a] + "\n" + table + summary + "\n" + s[b:])
+else:
+    print(table + summary)
